@@ -30,6 +30,9 @@ type RegOp struct {
 	EarlyOther bool `json:"eo,omitempty"`
 	// EarlyFail: the early-reference factory returns an error
 	EarlyFail bool `json:"ef,omitempty"`
+	// Tolerate (get | getE | create): the factory body ignores an error of this operation and
+	// carries on (user code that looks something up and copes with its absence)
+	Tolerate bool `json:"tol,omitempty"`
 }
 
 type RegNode struct {
@@ -70,11 +73,12 @@ func genRegTree(r *rand.Rand) *RegTree {
 		nOps := r.IntN(6)
 		for i := 0; i < nOps; i++ {
 			target := t.Names[r.IntN(len(t.Names))]
+			tol := r.IntN(4) == 0
 			switch x := r.IntN(10); {
 			case x < 3:
-				n.Ops = append(n.Ops, RegOp{Kind: "getE", Name: target})
+				n.Ops = append(n.Ops, RegOp{Kind: "getE", Name: target, Tolerate: tol})
 			case x < 5:
-				n.Ops = append(n.Ops, RegOp{Kind: "get", Name: target})
+				n.Ops = append(n.Ops, RegOp{Kind: "get", Name: target, Tolerate: tol})
 			case x < 6:
 				n.Ops = append(n.Ops, RegOp{Kind: "inC", Name: target})
 			default:
@@ -87,9 +91,9 @@ func genRegTree(r *rand.Rand) *RegTree {
 					}
 				}
 				if onStack || depth >= 4 || t.Nodes > 12 {
-					n.Ops = append(n.Ops, RegOp{Kind: "getE", Name: target})
+					n.Ops = append(n.Ops, RegOp{Kind: "getE", Name: target, Tolerate: tol})
 				} else {
-					n.Ops = append(n.Ops, RegOp{Kind: "create", Name: target, Child: gen(target, depth+1, stack)})
+					n.Ops = append(n.Ops, RegOp{Kind: "create", Name: target, Child: gen(target, depth+1, stack), Tolerate: tol})
 				}
 			}
 		}
@@ -154,17 +158,17 @@ func runRegCase(c *regCase) (calls []model.RegCall, panicMsg string) {
 						return final, nil
 					}))
 				case "get":
-					if _, err := tr.GetSingleton(op.Name, false); err != nil {
+					if _, err := tr.GetSingleton(op.Name, false); err != nil && !op.Tolerate {
 						return nil, err
 					}
 				case "getE":
-					if _, err := tr.GetSingleton(op.Name, true); err != nil {
+					if _, err := tr.GetSingleton(op.Name, true); err != nil && !op.Tolerate {
 						return nil, err
 					}
 				case "inC":
 					tr.IsSingletonCurrentlyInCreation(op.Name)
 				case "create":
-					if _, err := create(op.Child); err != nil {
+					if _, err := create(op.Child); err != nil && !op.Tolerate {
 						return nil, err
 					}
 				}
